@@ -27,8 +27,8 @@ func vpPath(name string, depth, maxc int) string {
 	return p
 }
 
-// vpIndex builds an arbitrary index satisfying INV_index: strictly ascending paths, no entry is a
-// directory prefix of another, EntryNum == len(Entries), NameLength == len(Path).
+// vpIndex builds an arbitrary index satisfying INV_index: strictly ascending paths (hence no duplicates),
+// EntryNum == len(Entries), NameLength == len(Path).
 func vpIndex(n, depth, maxc int) *Index {
 	idx := newIndex()
 	for i := 0; i < n; i++ {
@@ -36,10 +36,6 @@ func vpIndex(n, depth, maxc int) *Index {
 		h := zzvp.Bytes("h"+string(rune('0'+i)), 20, "")
 		if i > 0 {
 			zzvp.Assume(string(idx.Entries[i-1].Path) < p)
-		}
-		for j := 0; j < i; j++ {
-			q := string(idx.Entries[j].Path)
-			zzvp.Assume(!vpHasDirPrefix(p, q) && !vpHasDirPrefix(q, p))
 		}
 		idx.Entries = append(idx.Entries, NewEntry(sha.SHA1(h), []byte(p)))
 	}
@@ -114,8 +110,144 @@ func VP_C06_ByDir() {
 	zzvp.Done()
 }
 
-var vpHarnesses = map[string]func(){
-	"VP_C06_GetEntry": VP_C06_GetEntry,
-	"VP_C06_IsDir":    VP_C06_IsDir,
-	"VP_C06_ByDir":    VP_C06_ByDir,
+func vpSorted(idx *Index) bool {
+	ok := int(idx.EntryNum) == len(idx.Entries)
+	for i, e := range idx.Entries {
+		if int(e.NameLength) != len(e.Path) || len(e.Hash) != 20 {
+			ok = false
+		}
+		if i > 0 && !(string(idx.Entries[i-1].Path) < string(e.Path)) {
+			ok = false
+		}
+	}
+	return ok
 }
+
+func vpGoitDir() string {
+	g := zzvp.Root() + "/.goit"
+	zzvp.MkdirAll(g)
+	return g
+}
+
+// vpEncode is the specification of the on-disk format, written independently of Index.write.
+func vpEncode(entries []*Entry) []byte {
+	n := len(entries)
+	out := []byte{'D', 'I', 'R', 'C', 0, 0, 0, 1, byte(n >> 24), byte(n >> 16), byte(n >> 8), byte(n)}
+	for _, e := range entries {
+		out = append(out, e.Hash...)
+		out = append(out, byte(len(e.Path)>>8), byte(len(e.Path)))
+		out = append(out, e.Path...)
+	}
+	return out
+}
+
+func vpSameEntries(a, b []*Entry) bool {
+	if len(a) != len(b) {
+		return false
+	}
+	ok := true
+	for i := range a {
+		if string(a[i].Path) != string(b[i].Path) || string(a[i].Hash) != string(b[i].Hash) || a[i].NameLength != b[i].NameLength {
+			ok = false
+		}
+	}
+	return ok
+}
+
+// VP_C06_WriteRead: the file written for an arbitrary canonical index has exactly the specified bytes and decodes to the same entries.
+func VP_C06_WriteRead() {
+	n := zzvp.Choose(zzvp.Param("entries", 3) + 1)
+	idx := vpIndex(n, zzvp.Param("depth", 2), zzvp.Param("complen", 2))
+	g := vpGoitDir()
+	err := idx.write(g)
+	zzvp.Assert(err == nil, "writing the staging area succeeds")
+	b, ok := zzvp.ReadFile(g + "/index")
+	zzvp.Assert(ok && string(b) == string(vpEncode(idx.Entries)), "on-disk staging area = DIRC, version, count, then (id, be16 length, path) per entry")
+	back, err := NewIndex(g)
+	zzvp.Assert(err == nil, "a staging area written by Goit loads")
+	if err == nil {
+		zzvp.Assert(int(back.EntryNum) == n && vpSameEntries(back.Entries, idx.Entries), "the staging area decodes to exactly the entries last written")
+	}
+	zzvp.Done()
+}
+
+// VP_C06_Update: one Update step from an arbitrary canonical state keeps the state canonical and changes exactly one entry.
+func VP_C06_Update() {
+	n := zzvp.Choose(zzvp.Param("entries", 3) + 1)
+	idx := vpIndex(n, zzvp.Param("depth", 2), zzvp.Param("complen", 2))
+	old := append([]*Entry{}, idx.Entries...)
+	p := vpPath("q", zzvp.Param("depth", 2), zzvp.Param("complen", 2))
+	h := zzvp.Bytes("qh", 20, "")
+	g := vpGoitDir()
+	was := -1
+	for i, e := range old {
+		if string(e.Path) == p {
+			was = i
+		}
+	}
+	changed, err := idx.Update(g, sha.SHA1(h), []byte(p))
+	zzvp.Assert(err == nil, "Update succeeds")
+	zzvp.Assert(vpSorted(idx), "after Update the entries are strictly ascending, duplicate-free and counted")
+	// specified content
+	wantLen := len(old)
+	if was < 0 {
+		wantLen++
+	}
+	ok := len(idx.Entries) == wantLen
+	found := false
+	for _, e := range idx.Entries {
+		if string(e.Path) == p {
+			found = string(e.Hash) == string(h)
+		}
+	}
+	for _, o := range old {
+		if string(o.Path) == p {
+			continue
+		}
+		kept := false
+		for _, e := range idx.Entries {
+			if string(e.Path) == string(o.Path) && string(e.Hash) == string(o.Hash) {
+				kept = true
+			}
+		}
+		if !kept {
+			ok = false
+		}
+	}
+	zzvp.Assert(ok && found, "Update maps the named path to the new id and leaves every other entry unchanged")
+	if was >= 0 && string(old[was].Hash) == string(h) {
+		zzvp.Assert(!changed, "re-adding an unchanged entry reports no change")
+	} else {
+		zzvp.Assert(changed, "a new or modified entry is reported as changed")
+		b, rok := zzvp.ReadFile(g + "/index")
+		zzvp.Assert(rok && string(b) == string(vpEncode(idx.Entries)), "the file written by Update encodes exactly the new entries")
+	}
+	zzvp.Done()
+}
+
+// VP_C06_Delete: one DeleteEntry step.
+func VP_C06_Delete() {
+	n := zzvp.Choose(zzvp.Param("entries", 3) + 1)
+	idx := vpIndex(n, zzvp.Param("depth", 2), zzvp.Param("complen", 2))
+	old := append([]*Entry{}, idx.Entries...)
+	p := vpPath("q", zzvp.Param("depth", 2), zzvp.Param("complen", 2))
+	g := vpGoitDir()
+	was := -1
+	for i, e := range old {
+		if string(e.Path) == p {
+			was = i
+		}
+	}
+	err := idx.DeleteEntry(g, []byte(p))
+	if was < 0 {
+		zzvp.Assert(err != nil && vpSameEntries(idx.Entries, old) && !zzvp.Exists(g+"/index"), "deleting an untracked path is refused and changes nothing")
+	} else {
+		zzvp.Assert(err == nil, "deleting a tracked path succeeds")
+		want := append(append([]*Entry{}, old[:was]...), old[was+1:]...)
+		zzvp.Assert(vpSorted(idx) && vpSameEntries(idx.Entries, want), "DeleteEntry removes exactly the named entry and keeps the order")
+		b, rok := zzvp.ReadFile(g + "/index")
+		zzvp.Assert(rok && string(b) == string(vpEncode(want)), "the file written by DeleteEntry encodes exactly the remaining entries")
+	}
+	zzvp.Done()
+}
+
